@@ -122,6 +122,41 @@ def negbinLossPinned : Expr :=
 def negbinGradPinned : Expr :=
   .sub (.div (.add .param (.const 1)) (.add (.const 1) .var)) (.div .data (.add .var (.const EPS)))
 
+/-! ### Bernoulli-logit: the overflow-safe spelling of the softplus -/
+
+/-- log-sum-exp stabilisation: `y + log (1 + e^{-y}) = log (e^y + 1)` -/
+theorem log1p_exp_neg (y : ℝ) : y + Real.log (1 + Real.exp (-y)) = Real.log (Real.exp y + 1) := by
+  have h1 : (0:ℝ) < 1 + Real.exp (-y) := by positivity
+  have h2 : (0:ℝ) < Real.exp y := Real.exp_pos y
+  calc y + Real.log (1 + Real.exp (-y)) = Real.log (Real.exp y) + Real.log (1 + Real.exp (-y)) := by rw [Real.log_exp]
+    _ = Real.log (Real.exp y * (1 + Real.exp (-y))) := (Real.log_mul h2.ne' h1.ne').symm
+    _ = Real.log (Real.exp y + 1) := by
+        congr 1
+        rw [mul_add, mul_one, ← Real.exp_add, add_neg_cancel, Real.exp_zero]
+
+/-- the Bernoulli-logit loss in closed form and its derivative -/
+theorem logit_spec_deriv (x m : ℝ) :
+    HasDerivAt (fun y => Real.log (Real.exp y + 1) - x * y) (Real.exp m / (Real.exp m + 1) - x) m := by
+  have h1 : (0:ℝ) < Real.exp m + 1 := by positivity
+  have := (((Real.hasDerivAt_exp m).add_const 1).log h1.ne').fun_sub ((hasDerivAt_id' m).const_mul x)
+  simpa using this
+
+/-- closed form `log (e^y + 1) − x y` of a softplus spelled `max(y, 0) + log1p(exp(−|y|)) − x y` (or the like): split
+on the sign of `y`, the pieces differ by the log-sum-exp identity -/
+macro "softplus_closed" "[" ds:Lean.Parser.Tactic.simpLemma,* "]" " at " y:term : tactic =>
+  `(tactic|
+    (have k1 := log1p_exp_neg $y
+     have k2 : Real.log (1 + Real.exp $y) = Real.log (Real.exp $y + 1) := by rw [add_comm]
+     have k3 : Real.log (Real.exp (-$y) + 1) = Real.log (1 + Real.exp (-$y)) := by rw [add_comm]
+     simp only [$ds,*, evalR]
+     rcases lt_trichotomy $y 0 with hd | hd | hd
+     · simp [indLt, indZero, sel, abs_of_neg hd, hd, not_lt.2 hd.le]
+       try linarith
+     · simp [indLt, indZero, sel, hd]
+       try linarith
+     · simp [indLt, indZero, sel, abs_of_pos hd, hd, not_lt.2 hd.le]
+       try linarith))
+
 /-! ### Huber -/
 
 /-- closed form of the generated Huber loss (threshold `t ≥ 0`), whatever way the source spells the two pieces -/
